@@ -229,7 +229,148 @@ def sec_btor2_lowercase(w):
 
 
 
-SECTIONS = [("reader_writer", sec_reader_writer), ("dimacs_max", sec_dimacs_max), ("lit_max_code", sec_lit_max_code), ("dimacs_words", sec_dimacs_words), ("aiger_header", sec_aiger_header), ("btor2_names", sec_btor2_names), ("btor2_keywords", sec_btor2_keywords), ("btor2_lowercase", sec_btor2_lowercase)]
+def rust_sources():
+    """the non-test part of every library source file of the four crates"""
+    out = []
+    for crate in ("flussab", "flussab-cnf", "flussab-aiger", "flussab-btor2"):
+        d = os.path.join(REPO, crate, "src")
+        for dirpath, _, fs in os.walk(d):
+            for f in sorted(fs):
+                if f.endswith(".rs"):
+                    rel = os.path.relpath(os.path.join(dirpath, f), REPO)
+                    txt = open(os.path.join(dirpath, f)).read()
+                    txt = txt.split("#[cfg(test)]")[0]
+                    txt = re.sub(r"//[^\n]*", "", txt)
+                    out.append((rel, txt))
+    return out
+
+
+def balanced_arg(text, start):
+    """text[start] is just after an opening parenthesis / bracket: return the argument text up to its partner"""
+    depth, i = 1, start
+    while i < len(text):
+        c = text[i]
+        if c in "([{":
+            depth += 1
+        elif c in ")]}":
+            depth -= 1
+            if depth == 0:
+                return text[start:i]
+        i += 1
+    raise Shape("unbalanced parentheses in an allocation site")
+
+
+class SizeExpr:
+    """a size expression of an allocation site -> Gallina term over the header's field names (all N)"""
+    def __init__(self, text, consts):
+        self.toks = re.findall(r"[A-Za-z_][A-Za-z_0-9]*|\d[\d_]*|<<|[().+*,]", text)
+        if "".join(self.toks) != re.sub(r"\s+", "", text):
+            raise Shape("unsupported size expression %r" % text)
+        self.i, self.consts, self.text = 0, consts, text
+
+    def peek(self):
+        return self.toks[self.i] if self.i < len(self.toks) else None
+
+    def eat(self, t=None):
+        x = self.peek()
+        if x is None or (t is not None and x != t):
+            raise Shape("unsupported size expression %r" % self.text)
+        self.i += 1
+        return x
+
+    def primary(self):
+        t = self.eat()
+        if t == "(":
+            e = self.expr(); self.eat(")"); return e
+        if t[0].isdigit():
+            return "%d" % int(t.replace("_", ""))
+        if t in ("self", "header"):
+            # self.header.<field> / header.<field>
+            if t == "self":
+                self.eat("."); self.eat("header")
+            self.eat(".")
+            f = self.eat()
+            if not re.fullmatch(r"[a-z_]+", f):
+                raise Shape("unsupported size expression %r" % self.text)
+            return f
+        if t in self.consts:
+            return "%d" % self.consts[t]
+        raise Shape("unsupported size expression %r (unknown name %s)" % (self.text, t))
+
+    def postfix(self):
+        e = self.primary()
+        while self.peek() == ".":
+            self.eat(".")
+            m = self.eat()
+            if m not in ("min", "max"):
+                raise Shape("unsupported size expression %r (method %s)" % (self.text, m))
+            self.eat("("); a = self.expr(); self.eat(")")
+            e = "(N.%s %s %s)" % (m, e, a)
+        return e
+
+    def term(self):
+        e = self.postfix()
+        while self.peek() == "*":
+            self.eat("*"); e = "(%s * %s)" % (e, self.postfix())
+        return e
+
+    def expr(self):
+        e = self.term()
+        while self.peek() == "+":
+            self.eat("+"); e = "(%s + %s)" % (e, self.term())
+        return e
+
+    def top(self):
+        e = self.expr()
+        if self.peek() is not None:
+            raise Shape("unsupported size expression %r" % self.text)
+        return e
+
+
+HEADER_FIELDS = ["max_var_index", "input_count", "latch_count", "output_count", "and_gate_count", "bad_state_property_count",
+                 "invariant_constraint_count", "justice_property_count", "fairness_constraint_count"]
+
+# allocation sites whose size is part of the hand-written reader / writer models (Reader.v: request_more, Writer.v: new)
+MODELLED_ALLOC_SITES = {
+    ("flussab/src/deferred_writer.rs", "with_capacity", "Self::DEFAULT_CHUNK_SIZE"),
+    ("flussab/src/deferred_reader.rs", "resize", "target_end, 0"),
+}
+
+
+def sec_prealloc(w):
+    # ---- every allocation whose size is an expression (reserve / with_capacity / resize / vec![x; n] / repeat):
+    # the AIGER whole-file parsers' pre-allocations become Gallina functions of the header; the reader's and writer's
+    # are the modelled ones; any other site is a shape this translator does not know (broken obligation for C05).
+    sites = {"flussab-aiger/src/ascii.rs": [], "flussab-aiger/src/binary.rs": []}
+    consts = {}
+    for rel, txt in rust_sources():
+        cs = dict((n, int_expr(v)) for n, v in re.findall(r"const ([A-Z_]+): usize = ([^;]+);", txt)
+                  if re.fullmatch(r"[0-9\s*<+()_]+", v.strip()))
+        for m in re.finditer(r"\b(reserve_exact|reserve|with_capacity|resize_with|resize|repeat)\s*\(|vec!\s*\[", txt):
+            kind = m.group(1) or "vec!"
+            arg = balanced_arg(txt, m.end())
+            if kind == "vec!":
+                if ";" not in arg:
+                    continue          # vec![] / vec![a, b]: a literal list
+                arg = arg.split(";", 1)[1]
+            if kind == "repeat" and not re.search(r"\bvec\b|Vec|String|\.repeat\(", txt[max(0, m.start() - 40):m.end()]):
+                pass
+            arg1 = re.sub(r"\s+", " ", arg.strip())
+            if (rel, kind, arg1) in MODELLED_ALLOC_SITES:
+                continue
+            if rel in sites and kind in ("reserve", "reserve_exact", "with_capacity"):
+                sites[rel].append(SizeExpr(arg1, cs).top())
+                consts[rel] = cs
+                continue
+            raise Shape("%s: allocation site `%s(%s)` is not part of the model" % (rel, kind, arg1))
+    for rel, name in (("flussab-aiger/src/ascii.rs", "ascii"), ("flussab-aiger/src/binary.rs", "binary")):
+        w("(* the sizes passed to Vec::reserve / with_capacity in %s, in source order, as functions of the header *)" % rel)
+        w("Definition prealloc_%s (%s : N) : list N :=" % (name, " ".join(HEADER_FIELDS)))
+        w("  [%s]." % ";\n   ".join(sites[rel]))
+    w("")
+
+
+SECTIONS = [("reader_writer", sec_reader_writer), ("dimacs_max", sec_dimacs_max), ("lit_max_code", sec_lit_max_code), ("dimacs_words", sec_dimacs_words), ("aiger_header", sec_aiger_header), ("btor2_names", sec_btor2_names), ("btor2_keywords", sec_btor2_keywords), ("btor2_lowercase", sec_btor2_lowercase), ("prealloc", sec_prealloc)]
 
 
 def main():
